@@ -132,7 +132,7 @@ def ids(s):
     return None if s is None else sorted(int(x) for x in s)
 
 
-def lanelet(la):
+def lanelet(la, fmt_pb=False):
     sl = la.stop_line
     return {
         "left": pts(la.left_vertices), "right": pts(la.right_vertices), "center": pts(la.center_vertices),
@@ -140,6 +140,11 @@ def lanelet(la):
         "pred": [int(x) for x in la.predecessor], "succ": [int(x) for x in la.successor],
         "adj_left": None if la.adj_left is None else [int(la.adj_left), bool(la.adj_left_same_direction)],
         "adj_right": None if la.adj_right is None else [int(la.adj_right), bool(la.adj_right_same_direction)],
+        # a direction flag without a neighbour (reachable through the setters); XML cannot carry it, protobuf can
+        **({"adj_left_dir_alone": bool(la.adj_left_same_direction)}
+           if fmt_pb and la.adj_left is None and la.adj_left_same_direction is not None else {}),
+        **({"adj_right_dir_alone": bool(la.adj_right_same_direction)}
+           if fmt_pb and la.adj_right is None and la.adj_right_same_direction is not None else {}),
         "stop_line": None if sl is None else {
             "start": pts([sl.start])[0] if sl.start is not None else None,
             "end": pts([sl.end])[0] if sl.end is not None else None,
@@ -214,7 +219,7 @@ def canon(sc, pps, fmt="xml", meta=None):
         "dt": float(sc.dt), "benchmark_id": str(sc.scenario_id),
         "author": sc.author, "affiliation": sc.affiliation, "source": sc.source,
         "tags": sorted(t.name for t in (sc.tags or set())), "location": location(sc.location),
-        "lanelets": {int(la.lanelet_id): lanelet(la) for la in net.lanelets},
+        "lanelets": {int(la.lanelet_id): lanelet(la, fmt == "pb") for la in net.lanelets},
         "signs": {int(s.traffic_sign_id): sign(s, fmt) for s in net.traffic_signs},
         "lights": {int(t.traffic_light_id): light(t, fmt) for t in net.traffic_lights},
         "intersections": {int(i.intersection_id): intersection(i) for i in net.intersections},
